@@ -175,3 +175,259 @@ def interesting_points(r, spec):
                 [cx + r.uniform(-9, 9), cy + r.uniform(-9, 9)]]
     pts.append([r.uniform(-100, 100), r.uniform(-100, 100)])
     return pts
+
+
+# ------------------------------------------------------------------------------------------------ C06 additions
+# exact closed-set intersection tests (simple polygons, discs) with a robustness margin; float bounding boxes are used
+# only to skip pairs that are far apart (margin 1e-3, far above any float rounding of the box corners)
+
+class Ring(list):
+    """A vertex ring (list of Fraction pairs) that remembers its float bounding box and its edges."""
+    __slots__ = ("box", "edges")
+
+    def __init__(self, pts):
+        super().__init__(pts)
+        xs = [float(p[0]) for p in pts] or [0.0]
+        ys = [float(p[1]) for p in pts] or [0.0]
+        self.box = (min(xs), min(ys), max(xs), max(ys))
+        n = len(pts)
+        self.edges = [(pts[i], pts[(i + 1) % n]) for i in range(n)]
+
+
+_FAR = 1e-3
+
+
+def ring_of(vs):
+    """Exact ring (Fraction pairs) of a vertex array; a repeated closing vertex is dropped."""
+    ring = [(F(x), F(y)) for x, y in vs]
+    if len(ring) >= 2 and ring[0] == ring[-1]:
+        ring = ring[:-1]
+    return Ring(ring)
+
+
+def _as_ring(ring):
+    return ring if isinstance(ring, Ring) else Ring(list(ring))
+
+
+def _box_gap(b1, b2):
+    """Lower bound (float) of the distance between two boxes."""
+    dx = max(b1[0] - b2[2], b2[0] - b1[2], 0.0)
+    dy = max(b1[1] - b2[3], b2[1] - b1[3], 0.0)
+    return max(dx, dy)
+
+
+def _cross(a, b, p):
+    return (b[0] - a[0]) * (p[1] - a[1]) - (b[1] - a[1]) * (p[0] - a[0])
+
+
+def seg_intersect(a, b, c, d):
+    """Closed segments ab, cd share a point (exact)."""
+    if max(a[0], b[0]) < min(c[0], d[0]) or max(c[0], d[0]) < min(a[0], b[0]) \
+            or max(a[1], b[1]) < min(c[1], d[1]) or max(c[1], d[1]) < min(a[1], b[1]):
+        return False
+    d1, d2, d3, d4 = _cross(a, b, c), _cross(a, b, d), _cross(c, d, a), _cross(c, d, b)
+    if ((d1 > 0 > d2) or (d1 < 0 < d2)) and ((d3 > 0 > d4) or (d3 < 0 < d4)):
+        return True
+    return (d1 == 0 and on_segment(c, a, b)) or (d2 == 0 and on_segment(d, a, b)) \
+        or (d3 == 0 and on_segment(a, c, d)) or (d4 == 0 and on_segment(b, c, d))
+
+
+def seg_cross_point(a, b, c, d):
+    """Intersection point of the lines ab, cd if the segments meet in a single point, else None."""
+    den = (b[0] - a[0]) * (d[1] - c[1]) - (b[1] - a[1]) * (d[0] - c[0])
+    if den == 0:
+        return None
+    t = ((c[0] - a[0]) * (d[1] - c[1]) - (c[1] - a[1]) * (d[0] - c[0])) / den
+    u = ((c[0] - a[0]) * (b[1] - a[1]) - (c[1] - a[1]) * (b[0] - a[0])) / den
+    if 0 <= t <= 1 and 0 <= u <= 1:
+        return (a[0] + t * (b[0] - a[0]), a[1] + t * (b[1] - a[1]))
+    return None
+
+
+def inside_ring(p, ring):
+    """p in the closed simple polygon (exact; no distances)."""
+    ring = _as_ring(ring)
+    b = ring.box
+    fx, fy = float(p[0]), float(p[1])
+    if fx < b[0] - _FAR or fx > b[2] + _FAR or fy < b[1] - _FAR or fy > b[3] + _FAR:
+        return False
+    px, py = p
+    inside = False
+    for (a, c) in ring.edges:
+        (ax, ay), (bx, by) = a, c
+        if (ay > py) != (by > py):
+            lhs = (px - ax) * (by - ay)
+            rhs = (py - ay) * (bx - ax)
+            if lhs == rhs:
+                return True                       # on this edge
+            if (lhs < rhs) == (by > ay):
+                inside = not inside
+        elif ay == py and by == py and min(ax, bx) <= px <= max(ax, bx):
+            return True                           # on a horizontal edge
+        elif ay == py and ax == px:
+            return True                           # on a vertex
+    return inside
+
+
+def ring_point(p, ring, band):
+    """(inside_or_on_boundary, on_boundary, near): near = outside/inside but within band of the boundary (not on it)."""
+    ring = _as_ring(ring)
+    b = ring.box
+    fx, fy = float(p[0]), float(p[1])
+    if fx < b[0] - _FAR or fx > b[2] + _FAR or fy < b[1] - _FAR or fy > b[3] + _FAR:
+        return False, False, False
+    ins = inside_ring(p, ring)
+    d2 = None
+    bb = band * band
+    for (a, c) in ring.edges:
+        # only edges whose box is within _FAR of p can be nearer than band
+        if fx < min(float(a[0]), float(c[0])) - _FAR or fx > max(float(a[0]), float(c[0])) + _FAR \
+                or fy < min(float(a[1]), float(c[1])) - _FAR or fy > max(float(a[1]), float(c[1])) + _FAR:
+            continue
+        e = seg_dist2(p, a, c)
+        if d2 is None or e < d2:
+            d2 = e
+    if d2 is None:
+        return ins, False, False
+    if d2 == 0:
+        return True, True, False
+    return ins, False, d2 <= bb
+
+
+def set_dist2(p, ring):
+    """Squared distance from p to the closed polygon (0 inside)."""
+    ring = _as_ring(ring)
+    if inside_ring(p, ring):
+        return Fraction(0)
+    return min(seg_dist2(p, a, b) for (a, b) in ring.edges)
+
+
+def rings_intersect(A, B, band=None):
+    """(truth, ambiguous) for two closed simple polygons.  truth is exact.  With band = None the answer is never
+    ambiguous; otherwise it is ambiguous unless it survives every perturbation of the boundaries smaller than band:
+    disjoint with a gap > band, or a common point that is farther than band inside both."""
+    A, B = _as_ring(A), _as_ring(B)
+    if _box_gap(A.box, B.box) > _FAR:
+        return False, False
+    pts = []
+    truth = False
+    for (a, b) in A.edges:
+        for (c, d) in B.edges:
+            if seg_intersect(a, b, c, d):
+                truth = True
+                if band is None:
+                    return True, False
+                q = seg_cross_point(a, b, c, d)
+                if q is not None:
+                    pts.append(q)
+    if band is None:
+        if not truth and A and B:
+            truth = inside_ring(B[0], A) or inside_ring(A[0], B)
+        return truth, False
+    inA = [v for v in B if inside_ring(v, A)]
+    inB = [v for v in A if inside_ring(v, B)]
+    if inA or inB:
+        truth = True
+    b2 = band * band
+    if not truth:
+        gap2 = min(min(seg_dist2(a, c, d), seg_dist2(b, c, d), seg_dist2(c, a, b), seg_dist2(d, a, b))
+                   for (a, b) in A.edges for (c, d) in B.edges)
+        return truth, gap2 <= b2
+    cand = pts + inA + inB
+    if cand:
+        cand = cand + [(sum(q[0] for q in cand) / len(cand), sum(q[1] for q in cand) / len(cand))]
+    for q in cand:
+        if inside_ring(q, A) and inside_ring(q, B) \
+                and min(seg_dist2(q, a, b) for (a, b) in A.edges) > b2 and min(seg_dist2(q, a, b) for (a, b) in B.edges) > b2:
+            return truth, False
+    return truth, True
+
+
+# the exported geometry of a circle is GEOS's 64-gon inscribed in it: it contains the disc of radius r*cos(pi/64) > 0.998 r
+DISC_INNER = Fraction(998, 1000)
+
+
+def disc_meets_ring(c, r, ring, polygonal=False, band=Fraction(1, 10 ** 9)):
+    """(truth, ambiguous): closed disc of radius r around c meets the closed polygon.  polygonal=True: the answer is
+    ambiguous when it could differ for an inscribed polygon between radius 0.998 r and r (exported geometry)."""
+    ring = _as_ring(ring)
+    c = (F(c[0]), F(c[1]))
+    r = F(r)
+    fc = (float(c[0]), float(c[1]), float(c[0]), float(c[1]))
+    if _box_gap(fc, ring.box) > float(r) * 1.001 + _FAR:
+        return False, False
+    d2 = set_dist2(c, ring)
+    truth = r >= 0 and d2 <= r * r
+    if polygonal:
+        inner = DISC_INNER * r
+        amb = inner * inner < d2 <= (r * (1 + band)) ** 2
+    else:
+        amb = False
+    return truth, amb
+
+
+def spec_exact(spec):
+    """The boundary of the shape is given exactly by its parameters (no float trigonometry involved)."""
+    k = spec["k"]
+    if k == "rect":
+        return spec["o"] == 0
+    if k == "group":
+        return all(spec_exact(s) for s in spec["s"])
+    return True
+
+
+def has_circle(spec):
+    return spec["k"] == "circ" or (spec["k"] == "group" and any(has_circle(s) for s in spec["s"]))
+
+
+def shape_meets_ring(spec, ring, exported=True, band=Fraction(1, 10 ** 9), circ_scale=1):
+    """(truth, ambiguous): the set denoted by the shape spec meets the closed polygon `ring`.
+    exported=True: judge for a polygonal export, i.e. discs have the 64-gon band.  circ_scale: factor on every circle's
+    radius (1: the disc the circle denotes)."""
+    k = spec["k"]
+    if k == "group":
+        res = [shape_meets_ring(s, ring, exported, band, circ_scale) for s in spec["s"]]
+        truth = any(t for t, _ in res)
+        # ambiguous if an ambiguous member could change the union's answer
+        sure_true = any(t and not a for t, a in res)
+        amb = (not sure_true) and any(a for _, a in res)
+        return truth, amb
+    if k == "circ":
+        return disc_meets_ring(spec["c"], F(spec["r"]) * circ_scale, ring, polygonal=exported, band=band)
+    if k == "rect":
+        return rings_intersect(ring, ring_of(rect_vertices(spec)), None if spec_exact(spec) else band)
+    if k == "poly":
+        return rings_intersect(ring, ring_of(spec["v"]), None)
+    raise ValueError(k)
+
+
+def point_in_exported(spec, p, band=Fraction(1, 10 ** 9), circ_scale=1):
+    """(member, ambiguous) of p in a polygonal export of the shape: as point_in_shape, but a disc is only known to lie
+    between the discs of radius 0.998 r and r (r = circ_scale * radius)."""
+    k = spec["k"]
+    if k == "circ":
+        q = (F(p[0]), F(p[1]))
+        cx, cy, r = F(spec["c"][0]), F(spec["c"][1]), F(spec["r"]) * circ_scale
+        d2 = (q[0] - cx) ** 2 + (q[1] - cy) ** 2
+        inner = DISC_INNER * r
+        return d2 <= r * r, inner * inner < d2 <= (r * (1 + band)) ** 2
+    if k == "group":
+        res = [point_in_exported(s, p, band, circ_scale) for s in spec["s"]]
+        sure_true = any(t and not a for t, a in res)
+        return any(t for t, _ in res), (not sure_true) and any(a for _, a in res)
+    return point_in_shape(spec, p, band)
+
+
+def spec_of_shape(shape):
+    """Shape spec read back from a commonroad Shape object (parameters as stored)."""
+    from commonroad.geometry.shape import Circle, Polygon, Rectangle, ShapeGroup
+    if isinstance(shape, Rectangle):
+        return {"k": "rect", "l": float(shape.length), "w": float(shape.width), "c": [float(shape.center[0]), float(shape.center[1])],
+                "o": float(shape.orientation)}
+    if isinstance(shape, Circle):
+        return {"k": "circ", "r": float(shape.radius), "c": [float(shape.center[0]), float(shape.center[1])]}
+    if isinstance(shape, Polygon):
+        return {"k": "poly", "v": [[float(x), float(y)] for x, y in shape.vertices]}
+    if isinstance(shape, ShapeGroup):
+        return {"k": "group", "s": [spec_of_shape(s) for s in shape.shapes]}
+    raise ValueError(type(shape))
